@@ -192,8 +192,9 @@ def check_relation(ctx, c):
                 return
         elif how == "no_data":
             fin = f.copy()
-            fin[:, drop] = -999.0
-            kw2["no_data"] = -999.0
+            marker = [-999.0, 0.0, 0, -1, 1e30][int(rng.integers(0, 5))]  # any value may be the user's marker, incl. 0
+            fin[:, drop] = marker
+            kw2["no_data"] = marker
             fref = np.where(np.broadcast_to(drop, f.shape), np.nan, f)
             ref_keep = np.ones(n, dtype=bool)
         else:
